@@ -144,6 +144,16 @@ class LinEnv:
             return None
         if k == 'CallExpr' and n.get('callee') in ('strlen', '__builtin_strlen'):
             a = strip(n.ch[1])
+            # strlen of a pointer variable that is a plain copy of another one (a parameter of an inlined helper bound to
+            # the caller's variable) is the strlen of that one
+            hops = 0
+            while a is not None and a.k == 'DeclRefExpr' and a['ref'].get('kind') == 'var' and hops < 6:
+                d = self.single_def(a['ref']['id'])
+                ds = strip(d) if d is not None else None
+                if ds is None or ds.k != 'DeclRefExpr' or ds['ref'].get('kind') not in ('var', 'parm'):
+                    break
+                a = ds
+                hops += 1
             return Lin.sym(('strlen', strkey(a), render(a)))
         if k == 'BinaryOperator':
             op = n['op']
